@@ -103,6 +103,26 @@ def systematic(rng):
   yield mk_case([{'op': 'apply', 'fn': f('swap'), 'in': {'many': [{'i': 0}, P(1)]}, 'out': {'one': SELF}}], t2)
   yield mk_case([{'op': 'assign', 'fn': f('sum2'), 'in': {'many': [{'i': 0}, {'i': 1}]}, 'keys': {'one': {'i': 2}}}], t2)
   yield mk_case([{'op': 'assign', 'fn': f('add1'), 'in': {'one': {'i': 0}}, 'keys': {'one': {'i': 0}}}], t2)
+  # the same key shapes through NEGATIVE indices on the real code (lib_pipe `neg_len`: Index(k) is built as Index(k - 2);
+  # model and reference keep k) - reads, in-place writes of either position, nested write below an index, chains
+  # that keep the record a 2-tuple
+  t2n = [{'t': [{'t': [1, 2]}, 7]}, {'t': [{'t': [3, 4]}, 9]}]
+  for specs, items in [
+      ([{'op': 'apply', 'fn': f('swap'), 'in': {'many': [{'i': 0}, P(1)]}, 'out': {'one': SELF}}], t2),
+      ([{'op': 'assign', 'fn': f('add1'), 'in': {'one': {'i': 0}}, 'keys': {'one': {'i': 0}}}], t2),
+      ([{'op': 'assign', 'fn': f('add1'), 'in': {'one': {'i': 0}}, 'keys': {'one': {'i': 1}}}], t2),
+      ([{'op': 'assign', 'fn': f('add1'), 'in': {'one': P(1)}, 'keys': {'one': P(1)}}], t2),
+      ([{'op': 'assign', 'fn': f('pair'), 'in': {'one': {'i': 1}}, 'keys': {'many': [{'i': 1}, {'i': 0}]}}], t2),
+      ([{'op': 'assign', 'fn': f('add1'), 'in': {'one': {'i': 1}}, 'keys': {'one': P(0, 0)}}], t2n),
+      ([{'op': 'assign', 'fn': f('add1'), 'in': {'one': {'i': 1}}, 'keys': {'one': P(0, 1)}}], t2n),
+      ([{'op': 'select', 'in': {'many': [{'i': 1}, {'i': 0}]}}], t2),
+      ([{'op': 'filter', 'fn': f('is_even'), 'in': {'one': {'i': 1}}},
+        {'op': 'assign', 'fn': f('add1'), 'in': {'one': {'i': 1}}, 'keys': {'one': {'i': 1}}},
+        {'op': 'assign', 'fn': f('neg'), 'in': {'one': {'i': 0}}, 'keys': {'one': {'i': 1}}}], t2 + [{'t': [5, 6]}]),
+  ]:
+    c = mk_case(specs, items, tag='neg-index')
+    c['neg_len'] = 2
+    yield c
   # batch
   for n in (0, 1, 2, 3):
     yield mk_case([{'op': 'batch', 'n': n}], ints + [1, 2])
